@@ -162,14 +162,14 @@ def probe_all_subscribers(chk):
 
 def run(chk, drv):
     quick = chk.tier == 'quick'
-    chk.cov['rule'] = ('histories with random subscription sets (1..3 callbacks per key, subsets of method / property / nested keys, garbage on '
+    chk.cov['rule'] = ('histories with random subscription sets (1..3 callbacks per key, subsets of method / property / nested keys, some method subscribers raising after being called, garbage on '
                        'unsubscribed methods); non-trivial: >= 2 entities and >= 1 delivered event; distinct by (definition set, history, '
                        'subscriptions). Recordings: every client method subscribed; one distinct class per (file, method key) delivered.')
     probe_all_subscribers(chk)
     n_sets = 50 if quick else 800
     cfgs = [dict(seed_key='C07-%s-%d' % (chk.seed, i), dialects=['wowsOld', 'wowsNew', 'wot'], n_hist=3,
                  n_events=50 if i % 2 == 0 else 150, every=(i % 2 == 0), weights=WEIGHTS, strict=False, want_sample=(i == 0),
-                 subs='all', fields=['entities'], entity_fields=['client']) for i in range(n_sets)]
+                 subs=('raising' if i % 3 == 1 else 'all'), fields=['entities'], entity_fields=['client']) for i in range(n_sets)]
     histcheck.run_batches(chk, cfgs, 'gen', 'subscribers are not called exactly once per matching event with the right arguments',
                           nontrivial=lambda c: c['entities'] >= 2 and c.get('subs', 0) >= 1)
     part_recordings(chk, 3 if quick else 1000, 30000 if quick else None)
